@@ -165,11 +165,17 @@ def wl_bloom_pairs(ctx, rng, case):
         else:
             A = A0
         objs.append(A)
+        subclassed = rng.random() < 0.15 and B0.elements_added >= 0
         if pb:
             B0.export(pb)
-            B = P.BloomFilterOnDisk(pb, **bl.kw_hash(hf2))
+            B = P.BloomFilterOnDisk(pb, **bl.kw_hash(hf2)) if not subclassed else type("ArchivedBloom", (P.BloomFilterOnDisk,), {"label": "b"})(pb, **bl.kw_hash(hf2))
+        elif subclassed:
+            # an application's own SUBCLASS of the filter (a label, a context manager, ...) is an operand like any other
+            B = type("LabelledBloom", (P.BloomFilter,), {"label": "b"}).frombytes(bytes(B0), **bl.kw_hash(hf2))
         else:
             B = B0
+        if subclassed:
+            ctx.count("operands_that_are_instances_of_a_subclass")
         objs.append(B)
         if A.elements_added == 0 and any(bl.bits_of(A)) or B.elements_added == 0 and any(bl.bits_of(B)):
             ctx.count("operands_with_zero_count_but_bits_set")
